@@ -151,5 +151,9 @@ Proof. reflexivity. Qed.
 (* the guard that keeps non-positive counts away from FitRegion sits in RuleManager.adjustRule, which every
    rule a RuleManager serves has passed (SetRule / SetRules / Batch / bundles / loadRules): with a negative
    Count the search never calls compareBest and leaves a nil RuleFit (driver probe `negative-count`) *)
+Lemma body_RuleManager_FitRegion_ok : body_RuleManager_FitRegion =
+  ["_v3 := _v0.GetRulesForApplyRegion(_v2)"; "return FitRegion(_v1, _v2, _v3)"].
+Proof. reflexivity. Qed.
+
 Lemma count_guard_present : exists v, In (v ++ ".Count <= 0") adjust_rule_guards.
 Proof. exists "_v1". vm_compute. tauto. Qed.
